@@ -28,17 +28,26 @@ THEOREMS = [
     "C18.framingOk_run",
 ]
 TRUSTED = [
+    "which dialects have transactional DDL when nothing is overridden (DEFAULT_TDDL: postgresql and mssql yes; sqlite, mysql, oracle no) is specification data of the harness, "
+    "not read from the implementation; an explicit transactional_ddl= counts for the configure() call that passes it",
     "tokeniser of the offline output buffer (harness/props/c18.py:tokenise): BEGIN/COMMIT spellings and batch separators per dialect",
     "nver (number of version-table statements per step) and createVT/dropVT are read from the implementation run and passed to the model as parameters; the theorems hold for every value of them",
 ]
 RULE = (
-    "(dialect_name for 5 dialects | mssql/oracle with their batch separator emptied or customised | output_encoding with a binary buffer | live SQLite connection, fresh or already in a transaction) x transactional_ddl override x transaction_per_migration x history x command(upgrade/downgrade/stamp) "
+    "(dialect_name for 5 dialects | 2-3 configure() calls of one EnvironmentContext with mixed dialects and overrides (multidb shape) | mssql/oracle with their batch separator emptied or customised | output_encoding with a binary buffer | live SQLite connection, fresh or already in a transaction) x transactional_ddl override x transaction_per_migration x history x command(upgrade/downgrade/stamp) "
     "x bodies with 0-2 autocommit blocks; a case is non-trivial when the plan has >=1 step; distinct by "
     "(dialect, override, per_migration, token stream)"
 )
 ASSUMPTIONS = ["env.py has the documented shape: with context.begin_transaction(): context.run_migrations()"]
 
 DIALECTS = ["sqlite", "postgresql", "mysql", "mssql", "oracle"]
+# "a dialect with transactional DDL": what each dialect's impl declares when nothing is overridden (spec data, see TRUSTED);
+# an explicit transactional_ddl= of the *same* configure() call overrides it
+DEFAULT_TDDL = {"sqlite": False, "postgresql": True, "mysql": False, "mssql": True, "oracle": False}
+
+
+def expected_tddl(dialect, override):
+    return bool(override) if override is not None else DEFAULT_TDDL[dialect]
 
 
 def tokenise(text, rev_index, seps=()):
@@ -98,8 +107,11 @@ def _live_connection(in_txn):
     return conn
 
 
-def run_impl(dialect, override, per_mig, hist, cmd, target, start_rows, bodies, conn_mode=None, dopts=None):
-    """returns dict(toks, migs(for the model), dropVT, tddl, steps) or dict(err=...)"""
+def run_impl(dialect, override, per_mig, hist, cmd, target, start_rows, bodies, conn_mode=None, dopts=None, prefix=None):
+    """returns dict(toks, migs(for the model), dropVT, tddl, steps) or dict(err=...).
+    prefix (a list of [dialect, override] pairs, possibly empty): the multidb shape - one EnvironmentContext, one
+    configure()/begin_transaction()/run_migrations() per entry of prefix, each into a buffer of its own, and then the
+    judged call"""
     # with output_encoding the context wraps a *binary* buffer in an encoding writer of its own
     enc = (dopts or {}).get("output_encoding")
     buf = io.BytesIO() if enc else io.StringIO()
@@ -155,20 +167,44 @@ def run_impl(dialect, override, per_mig, hist, cmd, target, start_rows, bodies, 
     if dopts:
         opts.update(dopts)  # dialect options such as mssql_batch_separator
     conn = None
-    if conn_mode is None:
-        ctx = MigrationContext.configure(dialect_name=dialect, opts=opts)
+    if prefix is not None:
+        from alembic.config import Config
+        from alembic.runtime.environment import EnvironmentContext
+
+        ekw = {"fn": fn, "as_sql": True}
+        if start_rows:
+            ekw["starting_rev"] = opts["starting_rev"]
+        env = EnvironmentContext(Config(), sd, **ekw)
+        try:
+            for d_, ov_ in list(prefix) + [[dialect, override]]:
+                del steps_seen[:]
+                del heads_after[:]
+                ckw = {"dialect_name": d_, "output_buffer": io.StringIO(), "transaction_per_migration": per_mig,
+                       "on_version_apply": on_apply}
+                if ov_ is not None:
+                    ckw["transactional_ddl"] = ov_
+                env.configure(**ckw)
+                ctx = holder["ctx"] = env.get_context()
+                with env.begin_transaction():
+                    env.run_migrations()
+            buf = ckw["output_buffer"]      # the judged call is the last one
+        except Exception as e:
+            return {"err": revfake.exc_class(e)}
     else:
-        conn = _live_connection(conn_mode == "in-txn")
-        ctx = MigrationContext.configure(connection=conn, opts=opts)
-    holder["ctx"] = ctx
-    try:
-        with ctx.begin_transaction():
-            ctx.run_migrations()
-    except Exception as e:  # resolution errors etc.: not this property's business
-        return {"err": revfake.exc_class(e)}
-    finally:
-        if conn is not None:
-            conn.close()
+        if conn_mode is None:
+            ctx = MigrationContext.configure(dialect_name=dialect, opts=opts)
+        else:
+            conn = _live_connection(conn_mode == "in-txn")
+            ctx = MigrationContext.configure(connection=conn, opts=opts)
+        holder["ctx"] = ctx
+        try:
+            with ctx.begin_transaction():
+                ctx.run_migrations()
+        except Exception as e:  # resolution errors etc.: not this property's business
+            return {"err": revfake.exc_class(e)}
+        finally:
+            if conn is not None:
+                conn.close()
     # index of each step
     rev_index = {}
     migs = []
@@ -194,7 +230,8 @@ def run_impl(dialect, override, per_mig, hist, cmd, target, start_rows, bodies, 
         "unknown": unknown,
         "migs": migs,
         "dropVT": not final,
-        "tddl": bool(ctx.impl.transactional_ddl),
+        "tddl": expected_tddl(dialect, override),
+        "impl_tddl": bool(ctx.impl.transactional_ddl),
         "nsteps": len(steps_seen),
         "text": text_out,
     }
@@ -229,15 +266,29 @@ def gen_case(rng, max_n):
     return hist, cmd, target, rows, gen_bodies(rng, hist)
 
 
-def one_case(ctx, dialect, override, per_mig, hist, cmd, target, rows, bodies, pending, conn_mode=None, dopts=None):
+def leaked_override(inp):
+    """the explicit transactional_ddl= of the most recent earlier configure() call of the same env.py run, when the judged
+    call passes none (known finding C18-F1 = C04-F1: EnvironmentContext.configure keeps it in the shared context_opts)"""
+    if inp.get("prefix") is None or inp["override"] is not None:
+        return None
+    for _, ov in reversed(inp["prefix"]):
+        if ov is not None:
+            return bool(ov)
+    return None
+
+
+def one_case(ctx, dialect, override, per_mig, hist, cmd, target, rows, bodies, pending, conn_mode=None, dopts=None, prefix=None):
     inp = {"dialect": dialect, "override": override, "perMig": per_mig, "hist": hist, "cmd": cmd,
            "target": target, "rows": rows, "bodies": {k: [list(s) for s in v] for k, v in bodies.items()},
            "conn": conn_mode}
     if dopts:
         inp["dopts"] = dopts
         ctx.hist("dialect_option", ", ".join("%s=%r" % kv for kv in sorted(dopts.items())))
-    r = run_impl(dialect, override, per_mig, hist, cmd, target, rows, bodies, conn_mode, dopts)
-    ctx.hist("configured_with", conn_mode or "dialect_name")
+    if prefix is not None:
+        inp["prefix"] = [list(x) for x in prefix]
+        ctx.hist("configure_calls_before_the_judged_one", len(prefix))
+    r = run_impl(dialect, override, per_mig, hist, cmd, target, rows, bodies, conn_mode, dopts, prefix)
+    ctx.hist("configured_with", conn_mode or ("dialect_name" if prefix is None else "EnvironmentContext.configure(dialect_name)"))
     ctx.evaluation()
     ctx.hist("dialect", dialect)
     ctx.hist("cmd", cmd)
@@ -266,15 +317,30 @@ def flush(ctx, pending):
     ans = ctx.drv.ask(ops)
     for k, (inp, r) in enumerate(pending):
         m, s = ans[2 * k], ans[2 * k + 1]
-        if r["unknown"] or m.get("toks") != r["toks"]:
+        known_leak = (r["impl_tddl"] != r["tddl"] and leaked_override(inp) is not None and leaked_override(inp) == r["impl_tddl"])
+        if r["unknown"]:
             ctx.disagree("txn.offline", inp, {"toks": r["toks"], "unknown": r["unknown"]}, m)
+        elif known_leak:
+            # the divergence from the model of this call's own settings *is* finding C18-F1 (reported below as a
+            # failure and classified); the correspondence is checked against the model run with the setting the
+            # implementation ended up with
+            m2 = ctx.drv.ask1({"op": "txn.offline", "tddl": r["impl_tddl"], "perMig": inp["perMig"], "migs": r["migs"],
+                               "dropVT": r["dropVT"], "connInTxn": False})
+            if m2.get("toks") != r["toks"]:
+                ctx.disagree("txn.offline", inp, {"toks": r["toks"], "unknown": r["unknown"]}, m2)
+            else:
+                ctx.trace_ok()
+        elif m.get("toks") != r["toks"] or r["impl_tddl"] != r["tddl"]:
+            ctx.disagree("txn.offline", inp, {"toks": r["toks"], "unknown": r["unknown"], "transactional_ddl": r["impl_tddl"]},
+                         dict(m, transactional_ddl=r["tddl"]))
         else:
             ctx.trace_ok()
         if "err" in s or r["unknown"]:
             pass  # untokenisable output: a correspondence problem, reported above
         elif s.get("holds") is not True:
-            ctx.fail(inp, "framing: offline script is not correctly framed (%s)" % {k: v for k, v in s.items() if k != "holds"},
-                     impl={"toks": r["toks"], "text": r["text"][:4000]})
+            ctx.fail(inp, "framing: offline script is not correctly framed for a dialect %s transactional DDL (%s)" % (
+                "with" if r["tddl"] else "without", {k: v for k, v in s.items() if k != "holds"}),
+                     impl={"toks": r["toks"], "text": r["text"][:4000], "impl_tddl": r["impl_tddl"]})
         if k < 3:
             ctx.sample({"input": {k2: inp[k2] for k2 in ("dialect", "override", "perMig", "cmd", "target", "rows")},
                         "history": inp["hist"], "tokens": r["toks"]})
@@ -306,6 +372,13 @@ def run(ctx, n_cases=None, rng_name="main"):
             for pm in (False, True):
                 for cm in ("fresh", "in-txn"):
                     one_case(ctx, "sqlite", ov, pm, hist, cmd, target, rows, bodies, pending, conn_mode=cm)
+        # the multidb shape: several configure() calls of one EnvironmentContext, mixed dialects, each with or without its
+        # own override; every call of the sequence is judged with the calls before it as prefix
+        for _ in range(3):
+            seq = [[rng.choice(DIALECTS), rng.choice([None, None, None, True, False])] for _ in range(rng.choice([2, 2, 3]))]
+            pm = rng.random() < 0.5
+            for j, (d, ov) in enumerate(seq):
+                one_case(ctx, d, ov, pm, hist, cmd, target, rows, bodies, pending, prefix=seq[:j])
         if len(pending) > 3000:
             flush(ctx, pending)
     flush(ctx, pending)
@@ -316,10 +389,25 @@ def search(ctx):
 
 
 def check_witness(ctx, finding):
+    """replays the witness of C18-F1 on the real code"""
+    if finding["id"] != "C18-F1":
+        return None
+    w = finding["witness"]
+    r = run_impl(w["dialect"], None, w["perMig"], w["hist"], "upgrade", "heads", [], {}, prefix=w["prefix"])
+    if "err" not in r and r["impl_tddl"] != r["tddl"] and ("begin" in r["toks"]) != r["tddl"]:
+        return ("%s script configured without transactional_ddl after a configure(transactional_ddl=%r) call of the same run: "
+                "tokens %s" % (w["dialect"], w["prefix"][-1][1], r["toks"]))
     return None
 
 
 def classify(failure):
+    """C18-F1 only: the judged configure() call passed no transactional_ddl, an earlier call of the same EnvironmentContext did,
+    and the implementation framed the script with exactly that earlier value"""
+    i = failure.get("input") or {}
+    lo = leaked_override(i)
+    impl = failure.get("impl") or {}
+    if lo is not None and impl.get("impl_tddl") == lo and lo != expected_tddl(i["dialect"], None):
+        return "C18-F1"
     return None
 
 
@@ -327,11 +415,13 @@ def replay(ctx, case):
     inp = case["input"]
     bodies = {k: [tuple(s) for s in v] for k, v in inp["bodies"].items()}
     tgt = tuple(inp["target"]) if isinstance(inp["target"], list) else inp["target"]
-    r = run_impl(inp["dialect"], inp["override"], inp["perMig"], inp["hist"], inp["cmd"], tgt, inp["rows"], bodies, inp.get("conn"), inp.get("dopts"))
+    r = run_impl(inp["dialect"], inp["override"], inp["perMig"], inp["hist"], inp["cmd"], tgt, inp["rows"], bodies, inp.get("conn"), inp.get("dopts"),
+                 inp.get("prefix"))
     if "err" in r:
         return {"impl": r}
     base = {"tddl": r["tddl"], "perMig": inp["perMig"], "migs": r["migs"], "dropVT": r["dropVT"],
             "connInTxn": inp.get("conn") == "in-txn"}
     m = ctx.drv.ask1({"op": "txn.offline", **base})
     s = ctx.drv.ask1({"op": "txn.spec", **base, "out": r["toks"]})
-    return {"impl_tokens": r["toks"], "model_tokens": m.get("toks"), "spec": s, "script": r["text"]}
+    return {"impl_tokens": r["toks"], "model_tokens": m.get("toks"), "spec": s, "script": r["text"],
+            "transactional_ddl": {"this call's own settings": r["tddl"], "implementation": r["impl_tddl"]}}
